@@ -135,7 +135,7 @@ template <int OP, typename Row> void s_matrix(Ctx& c) {
   c.run([&] {
     switch (OP) {
     case M_RESIZE: m.resize(nr + rnd(1, 5), nc + rnd(1, 9)); m.add_zero_rows_and_columns(rnd(1, 3), rnd(1, 3)); m.resize(rnd(1, nr), rnd(1, nc)); break;
-    case M_COLUMNS: { m.add_zero_columns(rnd(1, 4), rnd(0, nc)); m.swap_columns(0, m.num_columns() - 1); rm_column(m, rnd(0, (int) m.num_columns() - 1)); std::vector<dimension_type> cyc; if (m.num_columns() >= 3) { cyc.push_back(0); cyc.push_back(2); cyc.push_back(1); cyc.push_back(0); m.permute_columns(cyc); } m.remove_trailing_columns(1); break; }
+    case M_COLUMNS: { m.add_zero_columns(rnd(1, 4), rnd(0, nc)); m.swap_columns(0, m.num_columns() - 1); rm_column(m, rnd(0, (int) m.num_columns() - 1)); std::vector<dimension_type> cyc; if (m.num_columns() >= 4) { cyc.push_back(1); cyc.push_back(3); cyc.push_back(2); cyc.push_back(0); m.permute_columns(cyc); } m.remove_trailing_columns(1); break; }
     case M_ROWS: m.add_row(extra); m.add_zero_rows(rnd(1, 3)); m.add_recycled_row(extra); m.remove_trailing_rows(1); m.reserve_rows(m.num_rows() + 20); break;
     case M_COPY_IO: { Matrix<Row> t(m); out = t; std::istringstream i(text); ok = t.ascii_load(i); std::ostringstream o; m.ascii_dump(o); out.m_swap(t); break; }
     }
@@ -151,7 +151,7 @@ template <int OP, typename Row> void s_matrix(Ctx& c) {
 REG_MAT("resize", M_RESIZE); REG_MAT("column_ops", M_COLUMNS); REG_MAT("row_ops", M_ROWS); REG_MAT("copy_ascii", M_COPY_IO);
 
 SCENARIO("Bit_Matrix.resize_transpose_sort") { int nr = rnd(1, 9), nc = rnd(1, 150); Bit_Matrix b(nr, nc); for (int i = 0; i < nr; ++i) for (int j = 0; j < nc; ++j) if (coin(30)) b[i].set(j); Bit_Matrix out;
-  c.run([&] { b.resize(nr + rnd(1, 9), nc + rnd(1, 200)); Bit_Matrix t; t.transpose_assign(b); b.transpose(); b.sort_rows(); Bit_Row r(b[0]); r.set(rnd(0, 300)); b.add_recycled_row(r); out = t; });
+  c.run([&] { b.resize(nr + rnd(1, 9), nc + rnd(1, 200)); Bit_Matrix t; t.transpose_assign(b); b.transpose(); b.sort_rows(); Bit_Row r(b[0]); r.set(rnd(0, (int) b.num_columns() - 1)); b.add_recycled_row(r); out = t; });
   c.result([&] { return dump(b) + dump(out); });
   auto fresh = [] { Bit_Matrix f(2, 3); f[0].set(1); f[1].set(2); return f; };
   auto use = [](Bit_Matrix& x) { x.resize(x.num_rows() + 1, x.num_columns() + 70); x[0].set(69); x.transpose(); x.sort_rows(); };
@@ -234,7 +234,8 @@ SCENARIO("Threshold_Watcher.construct_destroy") {
 }
 
 // ---------------------------------------------------------------- rejected calls
+// (not in a \exception clause, but an explicit `throw std::invalid_argument` of the constructors: a delta that wraps the weight counter)
 REJECT("Threshold_Watcher", "construct", "threshold_already_reached") { static WFlag flag; static const Throwable* volatile holder = 0;
-  r.call("invalid_argument", [&] { pplx::Weightwatch w(0, holder, flag); }); }
-REJECT("Threshold_Watcher", "construct_with_function", "threshold_already_reached") { r.call("invalid_argument", [&] { pplx::Weightwatch w(0, pplx::logical_timeout_handler); }); }
+  r.call("invalid_argument", [&] { pplx::Weightwatch w(1ULL << 63, holder, flag); }); }
+REJECT("Threshold_Watcher", "construct_with_function", "threshold_already_reached") { r.call("invalid_argument", [&] { pplx::Weightwatch w(1ULL << 63, pplx::logical_timeout_handler); }); }
 } // namespace
